@@ -6,6 +6,7 @@ pub mod ident;
 pub mod glist;
 pub mod map;
 pub mod merkle;
+pub mod serde_vec;
 
 use serde::{de::DeserializeOwned, Serialize};
 
@@ -14,8 +15,14 @@ pub fn json_roundtrip<T: Serialize + DeserializeOwned>(v: &T) -> (Result<String,
     match serde_json::to_string(v) {
         Err(e) => (Err(e.to_string()), None),
         Ok(text) => {
+            // the value is read back from the ORIGINAL text; the text shown is canonical (HashMap order removed,
+            // see jcanon.rs); a canonicaliser failure is shown as text and can never match the model
             let back = serde_json::from_str(&text).ok();
-            (Ok(text), back)
+            let shown = match crate::jcanon::canonical(&text) {
+                Ok(t) => t,
+                Err(e) => e,
+            };
+            (Ok(shown), back)
         }
     }
 }
